@@ -4,7 +4,7 @@ import re
 from sa.engine.api import *
 from sa.rules._helpers_A import *
 
-UNITS = ["validation.cpp", "consensus/tx_verify.cpp"]
+UNITS = ["validation.cpp", "consensus/tx_verify.cpp", "script/script.cpp"]
 EXPLANATION = ("LADDER (NECESSARY + only-if + result enums) on CheckBlock: no accepting path with an empty block, vtx.size()*4 > 4,000,000, stripped size*4 > 4,000,000, "
                "a non-coinbase first transaction, a coinbase at any index 1..size-1 (complete loop from 1), or 4 * sum(GetLegacySigOpCount) > 80,000; the memo flag is set "
                "only behind all of them. ContextualCheckBlock: BIP34 rung (HEIGHTINCB active after prev: scriptSig shorter than, or not starting with, CScript() << height) and "
@@ -18,7 +18,9 @@ CLAIM = dict(
     text="Decides, for all paths, that CheckBlock / ContextualCheckBlock / ConnectBlock accept only blocks within the structural and resource limits named by the property, with "
          "the exact comparison operators and constants (smallest violation rejected), that each limit's rejection fires only when the limit is exceeded, and that the sigop "
          "cost is the specified sum (legacy x4, P2SH x4 under SCRIPT_VERIFY_P2SH, witness per input; coinbase legacy only).",
-    note="Not decided: opcode-level sigop counting inside CScript::GetSigOpCount / CountWitnessSigOps (e.g. 'after OP_RETURN'), serialization sizes, CScript() << height encoding.",
+    note="Decided for CScript::GetSigOpCount(bool): the per-opcode increments (CHECKSIG/VERIFY +1; CHECKMULTISIG/VERIFY +DecodeOP_N(previous opcode) only if accurate and OP_1..OP_16, else +20), "
+         "the whole-script scan and the previous-opcode update. Not decided: CScript::GetOp decoding, CountWitnessSigOps and the P2SH redeem-script extraction, serialization sizes, "
+         "CScript() << height encoding.",
     ref="DESIGN.md §3 C06")
 
 BC = "BlockValidationResult::BLOCK_CONSENSUS"
@@ -31,6 +33,7 @@ def check(ctx):
     contextual(ctx, P)
     connect_block(ctx, P)
     sigop_twins(ctx, P)
+    script_sigops(ctx, P)
 
 
 def consts(ctx, P):
@@ -294,3 +297,92 @@ def sigop_twins(ctx, P):
          "spent scriptPubKey.GetSigOpCount(scriptSig) for every input spending a P2SH output"),
     ], oid="GetP2SHSigOpCount/sum", subst=hs)
     sum_exits(ctx, h, P, hs, hacc, hat, "GetP2SHSigOpCount", "GetP2SHSigOpCount is 0 for a coinbase and otherwise the sum over the complete input loop")
+
+
+# ---------------------------------------------------------------------------------------------- CScript::GetSigOpCount(bool)
+def script_sigops(ctx, P):
+    v = P.const("MAX_PUBKEYS_PER_MULTISIG")
+    ctx.ob("const/MAX_PUBKEYS_PER_MULTISIG", "CONST", "MAX_PUBKEYS_PER_MULTISIG == 20", v == 20, None, {"value": v})
+    fs = [x for x in P.fns("CScript::GetSigOpCount") if len(x.params) == 1 and x.params[0]["ty"] == "bool"]
+    if len(fs) != 1:
+        raise AnalysisBroken("CScript::GetSigOpCount(bool) not found")
+    f = ctx.used(fs[0])
+    acc_flag = f.params[0]["n"]
+    subst = naming(f, P)
+    ex = exits(f, P, subst)
+    lps = [lp for lp in loops_in(f)]
+    if len(ex) != 1 or not (is_expr(ex[0].value) and ex[0].value[0] == "local") or len(lps) != 1 or lps[0].get("k") != "while":
+        raise AnalysisBroken("CScript::GetSigOpCount(bool): expected one `while` scan and a single exit returning the counter")
+    n = ex[0].value[1]
+    lp = lps[0]
+    gets = sites(f, call_to("CScript::GetOp"), P)
+    if len(gets) != 1 or len(call_args(gets[0].expr)) < 2 or not all(a[0] == "local" for a in call_args(gets[0].expr)[:2]):
+        raise AnalysisBroken("CScript::GetSigOpCount(bool): expected one GetOp(<iterator>, <opcode>) call")
+    pc, op = [a[1] for a in call_args(gets[0].expr)[:2]]
+    dec = [a[1] for x in sites(f, call_to("CScript::DecodeOP_N"), P) for a in call_args(x.expr)[:1] if a[0] == "local"]
+    cand = sorted({e.expr[2][1] for e in sites(f, lambda e: e[0] == "b" and e[1] == "=" and is_expr(e[2]) and e[2][0] == "local" and match(["local", op], e[3]), P)} | set(dec))
+    if len(cand) != 1:
+        raise AnalysisBroken("CScript::GetSigOpCount(bool): the previous-opcode local was not recognised")
+    last = cand[0]
+    prev_sites = sites(f, lambda e: e[0] == "b" and e[1] in ASSIGN_OPS and match(["local", last], e[2]), P)
+    getop = "CScript::GetOp(%s, %s)" % (pc, op)
+    atoms = {"MORE": ["%s < prevector::end()" % pc, "%s < CScript::end()" % pc, "%s < end()" % pc], "GETOP": getop,
+             "CS": "%s == OP_CHECKSIG" % op, "CSV": "%s == OP_CHECKSIGVERIFY" % op, "CMS": "%s == OP_CHECKMULTISIG" % op, "CMSV": "%s == OP_CHECKMULTISIGVERIFY" % op,
+             "ACC": acc_flag, "LT1": "%s < OP_1" % last, "GT16": "OP_16 < %s" % last}
+    dpc, dn, dl = decl_of(f, pc), decl_of(f, n), decl_of(f, last)
+    okinit = (dn is not None and match(["int", 0], dn.get("i")) and dpc is not None and is_expr(dpc.get("i")) and dpc["i"][0] == "mcall" and dpc["i"][1].endswith("::begin")
+              and match(["this"], dpc["i"][2]) and dl is not None and show(dl.get("i")) == "OP_INVALIDOPCODE"
+              and F.equivalent(F.bind_atoms(F.to_formula(lp.get("c"), subst), atoms)[0], F.parse("MORE")) and not writes_to_local(f, pc) and not writes_to_local(f, op))
+    ctx.ob("CScript::GetSigOpCount/scan", "TWIN", "the count starts at 0 and the scan runs from begin() while pc < end(), the iterator and the opcode being advanced only by GetOp; "
+           "the previous opcode starts as OP_INVALIDOPCODE", okinit, f.where, {"iterator": pc, "opcode": op, "previous": last})
+    # leaving the loop early only when GetOp fails
+    brk = stmt_sites(f, lambda st: st.get("k") in ("break", "ret", "throw", "continue"), P)
+    brk = [b for b in brk if b.loops and b.loops[0] is lp]
+    okb = all(F.equivalent(F.bind_atoms(nf(f, subst, in_loop_formula(b, lp, subst)), atoms)[0], F.parse("MORE && !GETOP")) and b.stmt.get("k") == "break" for b in brk) and len(brk) == 1
+    ctx.ob("CScript::GetSigOpCount/whole-script", "TWIN", "the scan covers the whole script: the loop is left early only by `break` when GetOp fails (malformed push)", okb,
+           "%s:%s" % (f.file, lp.get("l")), {"early_exits": [(b.line, b.stmt.get("k"), F.fshow(in_loop_formula(b, lp, subst))[:200]) for b in brk]})
+    # the increments
+    MULTI = "(CMS || CMSV) && !(CS || CSV)"
+    want = [("post++|++|+= 1", "MORE && GETOP && (CS || CSV)", "OP_CHECKSIG / OP_CHECKSIGVERIFY count 1"),
+            (r"+= CScript::DecodeOP_N(%s)" % last, "MORE && GETOP && %s && ACC && !LT1 && !GT16" % MULTI,
+             "OP_CHECKMULTISIG(VERIFY) counts DecodeOP_N(previous opcode) only if fAccurate and OP_1 <= previous opcode <= OP_16"),
+            ("+= 20", "MORE && GETOP && %s && !(ACC && !LT1 && !GT16)" % MULTI, "OP_CHECKMULTISIG(VERIFY) otherwise counts MAX_PUBKEYS_PER_MULTISIG (20)")]
+    ws = sites(f, lambda e: (e[0] == "b" and e[1] in ASSIGN_OPS and match(["local", n], e[2])) or (e[0] == "u" and e[1] in ("++", "--", "post++", "post--", "&") and match(["local", n], e[2])), P)
+
+    def shape(s):
+        e = s.expr
+        if e[0] == "u":
+            return e[1]
+        return "%s %s" % (e[1], F.key(F.expand(e[3], subst)))
+    used = set()
+    for kinds, spec, text in want:
+        hit = [i for i, s_ in enumerate(ws) if i not in used and shape(s_) in kinds.split("|") and s_.loops and s_.loops[0] is lp]
+        ok, detail = False, {"writes": [(s_.line, shape(s_)) for s_ in ws]}
+        if len(hit) == 1:
+            used.add(hit[0])
+            s_ = ws[hit[0]]
+            f_, m_, un = bound(nf(f, subst, in_loop_formula(s_, lp, subst)), atoms)
+            c1, c2 = F.counterexample(f_, F.parse(spec)), F.counterexample(F.parse(spec), f_)
+            ok = c1 is None and c2 is None and not un
+            detail = None if ok else {"code": F.fshow(in_loop_formula(s_, lp, subst))[:700], "spec": spec, "unbound_code_atoms": un, "counterexample": c1 or c2}
+        ctx.ob("CScript::GetSigOpCount/count:%s" % kinds.split("|")[0], "TWIN", "%s [exact condition: %s]" % (text, spec), ok, ws[hit[0]].where if len(hit) == 1 else f.where, detail)
+    extra = [(s_.line, shape(s_)) for i, s_ in enumerate(ws) if i not in used]
+    ctx.ob("CScript::GetSigOpCount/no-other-write", "TWIN", "the counter is modified by nothing but the three specified increments", not extra, f.where, {"other": extra} if extra else None)
+    # previous opcode: updated at the end of every completed iteration, after the counting
+    okp, pdetail = False, {"writes": [(x.line, show(x.expr)) for x in prev_sites]}
+    if len(prev_sites) == 1:
+        p = prev_sites[0]
+        f_, m_, un = bound(nf(f, subst, in_loop_formula(p, lp, subst)), atoms)
+        okp = F.equivalent(f_, F.parse("MORE && GETOP")) and not un and match(["local", op], p.expr[3]) and p.expr[1] == "=" and len(p.loops) == 1 and p.loops[0] is lp \
+            and all((s_.line or 0) < (p.line or 0) for s_ in ws) and len(writes_to_local(f, last)) == 1
+        pdetail["cond"] = F.fshow(in_loop_formula(p, lp, subst))[:500]
+    ctx.ob("CScript::GetSigOpCount/previous-opcode", "TWIN", "the previous opcode is set to the current opcode exactly once per iteration that decoded one, after the counting step "
+           "(so CHECKMULTISIG sees the opcode before it)", okp, prev_sites[0].where if prev_sites else f.where, None if okp else pdetail)
+    ctx.ob("CScript::GetSigOpCount/result", "TWIN", "the counter is returned after the scan", F.implies(ex[0].formula, F.atom("done(loop@%s)" % lp.get("l"))), "%s:%s" % (f.file, ex[0].line))
+    # DecodeOP_N
+    g = ctx.used(P.fn("CScript::DecodeOP_N"))
+    gx = exits(g, P)
+    vals = sorted((F.key(e.value), F.fshow(drop_done(e.formula))) for e in gx if is_expr(e.value))
+    okd = len(gx) == 2 and any(v == "0" and c == "opcode == OP_0" for v, c in vals) and any(re.fullmatch(r"(?:\(int\))?opcode - 80", v) for v, c in vals)
+    o1 = dict((x[0], x[1]) for x in P.enum("opcodetype")["values"]).get("OP_1")
+    ctx.ob("CScript::DecodeOP_N/formula", "TWIN", "DecodeOP_N(OP_0) == 0 and DecodeOP_N(op) == op - (OP_1 - 1) with OP_1 == 0x51", okd and o1 == 81, g.where, {"returns": vals, "OP_1": o1})
